@@ -30,7 +30,7 @@ ADVERSARIAL = STR_POOL + ["true", " 7 ", "7 ", "\t7", "1__0", "_1", "1_", "--1",
                           "1677-01-01", "3000-01-01", "1 day", "5min", "P1D", "9223372036854775808",
                           "-9223372036854775809", "18446744073709551615", "18446744073709551616", "255", "256", "-129",
                           "dir0", "part.0.parquet", "k=v"]
-KINDS = [[0, True, 64], [0, True, 8], [0, True, 32], [0, False, 8], [0, False, 64], [1], [2], [3], [4, True], [4, False], [5]]
+KINDS = [[0, True, 64], [0, True, 8], [0, True, 32], [0, False, 8], [0, False, 64], [1], [2], [3, False], [3, True], [4, True], [4, False], [5]]
 META_OF_KIND = {
     (0, True, 64): {"pandas_type": "int64", "numpy_type": "int64"},
     (0, True, 8): {"pandas_type": "int8", "numpy_type": "int8"},
@@ -39,7 +39,8 @@ META_OF_KIND = {
     (0, False, 64): {"pandas_type": "uint64", "numpy_type": "uint64"},
     (1,): {"pandas_type": "bool", "numpy_type": "bool"},
     (2,): {"pandas_type": "unicode", "numpy_type": "object"},
-    (3,): {"pandas_type": "float64", "numpy_type": "float64"},
+    (3, False): {"pandas_type": "float64", "numpy_type": "float64"},
+    (3, True): {"pandas_type": "float32", "numpy_type": "float32"},
     (4, True): {"pandas_type": "datetime", "numpy_type": "datetime64[ns]"},
     (4, False): {"pandas_type": "datetime", "numpy_type": "datetime64[us]"},
     (5,): {"pandas_type": "categorical", "numpy_type": "int8"},
@@ -262,7 +263,7 @@ def _run(ctx, pq):
     # ---------------------------------------------------------------- E: whole datasets
     n_e = 160 if quick else 1500
     for i in range(n_e):
-        confirm = i < (8 if quick else 32)        # confirmation stream for the known findings
+        confirm = i < (10 if quick else 40)        # confirmation stream for the known findings
         case = gen_frame_case(rng, confirm, i)
         root = os.path.join(ctx.scratch, "e%d" % i)
         res = check_dataset(case, root, pq, ctx)
@@ -315,6 +316,26 @@ def gen_column(rng, kind, n, drill):
         used = rng.sample(cats, rng.choice([1, 2, len(cats)]))
         codes = [cats.index(rng.choice(used)) if not (nulls and rng.random() < 0.2) else -1 for _ in range(n)]
         return pd.Series(pd.Categorical.from_codes(codes, categories=cats))
+    if kind == "intx":
+        dt = rng.choice(["Int64", "Int8", "UInt8", "Int32", "UInt64"])
+        pool = {"Int64": [0, 1, -5, 2**63 - 1, -2**63], "Int8": [0, -128, 127, 5], "UInt8": [0, 255, 7],
+                "Int32": [0, -2**31, 2**31 - 1, 42], "UInt64": [0, 1, 2**63 + 5, 2**64 - 1]}[dt]
+        vals = rng.sample(pool, min(card, len(pool))) + ([None] if nulls else [])
+        return pd.Series(pd.array([rng.choice(vals) for _ in range(n)], dtype=dt))
+    if kind == "boolx":
+        vals = rng.sample([True, False], min(card, 2)) + ([None] if nulls else [])
+        return pd.Series(pd.array([rng.choice(vals) for _ in range(n)], dtype="boolean"))
+    if kind == "floatx":
+        dt = rng.choice(["Float64", "Float32"])
+        vals = rng.sample([0.5, 1.0, -2.25, 3.0, 1e10, 0.1], card) + ([None] if nulls else [])
+        return pd.Series(pd.array([rng.choice(vals) for _ in range(n)], dtype=dt))
+    if kind == "strx":
+        pool = [t for t in STR_POOL if L.legal_text(t, drill)]
+        vals = rng.sample(pool, min(card, len(pool))) + ([None] if nulls else [])
+        return pd.Series(pd.array([rng.choice(vals) for _ in range(n)], dtype=rng.choice(["string", "str"])))
+    if kind == "timetz":
+        base = pd.to_datetime([rng.choice(["2020-01-01 00:00:00", "2020-06-01 12:30:00", "1999-12-31 23:59:59"]) for _ in range(n)])
+        return pd.Series(base.tz_localize(rng.choice(["UTC", "Europe/Berlin", "America/New_York"])))
     if kind == "allnull":
         return pd.Series(np.array([None if (r // 2) % 2 == 0 else "z" for r in range(n)], dtype=object))
     if kind == "catnum":
@@ -330,13 +351,16 @@ def gen_frame_case(rng, confirm, i):
     scheme = rng.choice(["hive", "hive", "drill"])
     n = rng.choice([0, 1, 2, 3, 5, 8, 13, 21, 34]) if i % 9 else rng.choice([0, 1])
     n_on = rng.choice([1, 1, 2, 2, 3])
-    kinds = [rng.choice(["int", "int", "bool", "float", "time", "str", "strnum" if scheme == "hive" else "str", "cat"]) for _ in range(n_on)]
-    which = i % 4 if confirm else -1
+    kinds = [rng.choice(["int", "int", "bool", "float", "time", "str", "strnum" if scheme == "hive" else "str", "cat",
+                         "intx", "boolx", "floatx", "strx"]) for _ in range(n_on)]
+    which = i % 5 if confirm else -1
     if confirm:
         if which == 0:
             scheme, kinds[0] = "hive", "catnum"
         elif which == 1:
             scheme, kinds = "drill", ["strnum"] + kinds[1:]
+        elif which == 4:
+            scheme, kinds[0] = "hive", "timetz"
         elif which == 2:
             scheme, n_on, kinds = "drill", 2, [rng.choice(["str", "int"]), rng.choice(["bool", "time", "int"])]
         else:       # regression stream of fix d63c479: categorical key next to a key column that is all NULL in a chunk
@@ -398,10 +422,12 @@ def check_dataset(case, root, pq, ctx=None, verbose=False):
     alive = [r for r in range(n) if all(v is not None for v in keyvals[r])]
     kinds = {c: L.kind_of_dtype(df[c].dtype) for c in on}
     label_kind = {c: ("s" if not is_cat[c] else L.canon(df[c].cat.categories[0])[0]) for c in on}
-    cls = {"scheme": scheme, "partition_kinds": sorted({("cat:" + label_kind[c]) if is_cat[c] else kinds[c][1] for c in on})}
+    tz_aware = any(isinstance(df[c].dtype, pd.DatetimeTZDtype) for c in on)
+    cls = {"scheme": scheme, "tz_aware": tz_aware, "partition_kinds": sorted({("cat:" + label_kind[c]) if is_cat[c] else kinds[c][1] for c in on})}
     texts = {}
     for r in alive:
         texts[r] = [L.key_text(v, hive) for v in keyvals[r]]
+    alts = {r: [L.key_texts(v, hive) for v in keyvals[r]] for r in alive}
     if scheme == "drill":
         guess_kinds = set()
         for j, c in enumerate(on):
@@ -437,8 +463,18 @@ def check_dataset(case, root, pq, ctx=None, verbose=False):
             if rid not in texts:
                 problems.append("row %d has a NULL key but is stored in %s" % (rid, f))
                 continue
-            want = "/".join((c + "=" + t) if hive else t for c, t in zip(on, texts[rid]))
-            if d != want:
+            segs = d.split("/") if d else []
+            ok = len(segs) == len(on)
+            for j, c in enumerate(on):
+                if not ok:
+                    break
+                t = segs[j][len(c) + 1:] if hive and segs[j].startswith(c + "=") else (segs[j] if not hive else None)
+                if t is None or t not in alts[rid][j]:
+                    ok = False
+                else:
+                    texts[rid][j] = t           # the spelling the writer chose
+            if not ok:
+                want = "/".join((c + "=" + t) if hive else t for c, t in zip(on, texts[rid]))
                 problems.append("row %d (key %r) stored in directory %r, expected %r" % (rid, texts[rid], d, want))
     for rid in alive:
         if len(seen.get(rid, [])) != 1:
@@ -450,9 +486,23 @@ def check_dataset(case, root, pq, ctx=None, verbose=False):
     mchunks = [[[[[] if keyvals[r][j] is None else [L.model_value(keyvals[r][j], is_cat[c])] for j, c in enumerate(on)], r] for r in ch] for ch in chunks]
     mo = pq.call("write_model", hive, [L.enc(c) for c in on], mchunks)
     model_files = {bytes(p).decode("utf-8", "replace"): sorted(ids) for p, ids in mo}
+
+    def canon_path(p):
+        # float levels: pandas hands float32 keys over widened or not depending on dtype and number of keys;
+        # both spellings name the same key, so the float texts are compared as the column's float values
+        segs = p.split("/")
+        for j, c in enumerate(on):
+            if j < len(segs) - 1 and kinds[c][0][0] == 3:
+                pre, t = (segs[j][:len(c) + 1], segs[j][len(c) + 1:]) if hive else ("", segs[j])
+                try:
+                    segs[j] = pre + L.canon_float(np.float32(t) if kinds[c][0][1] else float(t))
+                except Exception:       # noqa
+                    pass
+        return "/".join(segs)
     if ctx is not None:
         ctx.correspondence("write_model ~ tree written by write(partition_on=...)", _replayable(case),
-                           sorted(model_files.items()), sorted((f, sorted(i)) for f, i in file_ids.items()))
+                           sorted((canon_path(f), i) for f, i in model_files.items()),
+                           sorted((canon_path(f), sorted(i)) for f, i in file_ids.items()))
 
     # ---- (1b) read back
     got = None
@@ -519,6 +569,9 @@ def check_dataset(case, root, pq, ctx=None, verbose=False):
             else:
                 model = "raises"
             impl = [pf.file_scheme, sorted([rid, sorted([c, v] for c, v in by_id[rid].items())] for rid in ids)]
+            if not hive and model != "raises":
+                model = [model[0], [[rid, [[c, L.num_norm(v)] for c, v in cells]] for rid, cells in model[1]]]
+                impl = [impl[0], [[rid, [[c, L.num_norm(v)] for c, v in cells]] for rid, cells in impl[1]]]
             ctx.correspondence("read_model ~ ParquetFile(dir).to_pandas() partition columns", _replayable(case), model, impl)
     elif ctx is not None:
         try:
